@@ -49,16 +49,15 @@ def build(spec):
         else:
             nodes, cands = und_family(spec["cands"])
             h = hypergraphx.Hypergraph()
+        from verif.build import build_from_bits
+
         bits = present_bits(S, cands, fixed)
         for n in nodes:
             h.add_node(n)
-        idx = list(range(len(cands)))
-        if spec.get("reverse"):
-            idx.reverse()
-        for i in idx:
-            if bits[i]:
-                h.add_edge(tuple(reversed(cands[i])) if (spec.get("reverse") and what != "dline") else cands[i])
-        present = [cands[i] for i in range(len(cands)) if bits[i]]
+        mode = spec.get("build", "add-rev" if spec.get("reverse") else "add")
+        flip = bool(spec.get("reverse")) and what != "dline"
+        present = build_from_bits(cands, bits, lambda c: h.add_edge(tuple(reversed(c)) if flip else c),
+                                  lambda c: h.remove_edge(c), mode)
         if what == "bipartite":
             g, ids = pr.bipartite_projection(h)
             nv = [k for k in ids if ids[k] in nodes and not isinstance(ids[k], tuple)]
@@ -100,6 +99,9 @@ def build(spec):
         if what == "simplicial":
             sc = simplicial_complex(h)
             got = set(e for e in sc.get_edges() if len(e) > 0)
+            again = set(e for e in simplicial_complex(h).get_edges() if len(e) > 0)
+            if again != got:
+                return Fail("simplicial:second-call-differs")
             want = set()
             for e in present:
                 for r in range(1, len(e) + 1):
@@ -166,17 +168,23 @@ def obligations(tier, seed):
     out = []
     q = tier == "quick"
     und = [("n4q", 3, False)] if q else [("n4", 3, True), ("n5", 5, False), ("str", 2, False)]
+    k = 0
     for cname, nfix, rev in und:
         for fixed in itertools.product([0, 1], repeat=nfix):
             for what in ("bipartite", "clique", "simplicial"):
-                out.append({"family": what, "cands": cname, "fixed": list(fixed), "what": what, "reverse": rev})
+                k += 1
+                out.append({"family": what, "cands": cname, "fixed": list(fixed), "what": what, "reverse": rev,
+                            "build": ("add", "remove", "readd")[k % 3]})
             for dist in ("intersection", "jaccard"):
+                k += 1
                 out.append({"family": "line", "cands": cname, "fixed": list(fixed), "what": "line", "distance": dist,
-                            "reverse": rev})
+                            "reverse": rev, "build": ("remove", "add", "readd")[k % 3]})
     for cname, nfix in ([("n4q", 3)] if q else [("n4", 4), ("n5", 6)]):
         for fixed in itertools.product([0, 1], repeat=nfix):
             for dist in ("intersection", "jaccard"):
-                out.append({"family": "dline", "cands": cname, "fixed": list(fixed), "what": "dline", "distance": dist})
+                k += 1
+                out.append({"family": "dline", "cands": cname, "fixed": list(fixed), "what": "dline", "distance": dist,
+                            "build": ("add", "remove")[k % 2]})
     return out
 
 
@@ -190,7 +198,8 @@ def budget(tier):
 
 META = {
     "bounds": {
-        "quick": "Hypergraph on 4 nodes + isolated node: every sub-family of 8 candidates of sizes 1-4; threshold s an "
+        "quick": "(hypergraphs built by insertion only, by inserting every candidate and removing the absent ones - internal "
+                 "ids with gaps -, or with a remove/re-insert, rotating over obligations) Hypergraph on 4 nodes + isolated node: every sub-family of 8 candidates of sizes 1-4; threshold s an "
                  "unbounded symbolic integer >= 1 (intersection) or symbolic real in (0,1] (Jaccard); weighted and "
                  "keep_isolated symbolic Booleans; DirectedHypergraph: every sub-family of 9 candidates",
         "thorough": "10 (undirected) / 12 (directed) candidates on 4 nodes, reversed insertion/listing order, a 12-candidate family on 5 nodes with sizes 1-5, string labels, a "
